@@ -32,6 +32,40 @@ def run(fx, rep, tier):
     rule_zerowin(fx, rep, neg)
     rule_matesrc(fx, rep, neg)
     rule_key(fx, rep)
+    rule_report(fx, rep)
+
+
+def rule_report(fx, rep):
+    """C08-REPORT. The line printed with a score is the line the search recorded, whole: a `score mate N` is announced with
+    exactly the plies that reach the mate. Where the UCI reporter builds the `pv` field of an info line from the search's `pv`,
+    the iterator chain in between only converts (clone / iter / map / collect ..); an adaptor that selects or reorders moves
+    (`take`, `skip`, `filter`, `rev`, `step_by`, ..) prints a different line than the one the score belongs to - a mate found
+    through the check extension by an iteration shallower than the mate line is announced with a line that stops short of it."""
+    selecting = ("take", "skip", "take_while", "skip_while", "step_by", "filter", "filter_map", "rev", "chain", "zip", "flat_map", "scan", "map_while", "dedup", "truncate", "split_off", "drain", "pop", "split_at")
+    n, ok = 0, True
+    for b in fx.fn_bodies():
+        if not norm(b.name).startswith("engine::uci::") or "::tests::" in b.name:
+            continue
+        for bb, j, st in b.stmts():
+            rv = st.get("rv")
+            if not (st["k"] == "assign" and rv and rv["k"] == "agg" and rv.get("agg") == "adt" and norm(rv.get("adt", "")).endswith("InfoFields") and "pv" in (rv.get("fields") or [])):
+                continue
+            e = b.expr(rv["ops"][rv["fields"].index("pv")], expand_named=True, at=bb)
+            if not any(isinstance(x, tuple) and x and x[0] == "field" and x[2] == "pv" for x in walk(e)):
+                continue  # not built from a search's pv here
+            n += 1
+            used = [str(x[1]).split("::")[-1] for x in walk(e) if isinstance(x, tuple) and x and x[0] == "call" and isinstance(x[1], str)]
+            sel = [u for u in used if u in selecting]
+            good = not sel
+            rep.obligation(good)
+            rep.sample({"rule": "C08-REPORT", "fn": norm(b.name).split("::")[-1], "pv_chain": used[:12]})
+            if not good:
+                ok = False
+                rep.violation("C08-REPORT", f"C08-REPORT/{norm(b.name).split('::')[-1]}/{sel[0]}", f"`{b.name}` (line {st.get('line')}) passes the search's line through `{sel[0]}` before printing it: the printed line is not the "
+                              "line the score belongs to (a mate announced with fewer plies than reach it, or a line that is not the recorded one)", {"fn": b.name, "file": b.file, "line": st.get("line")})
+    if n == 0:
+        rep.notes.append("C08-REPORT: no info line built from a search's `pv` field found in the UCI reporter; clause not decided")
+    rep.rule("C08-REPORT", n, 0, ok, "the printed line is the recorded line, whole")
 
 
 def rule_key(fx, rep):
@@ -69,7 +103,13 @@ def rule_matesrc(fx, rep, neg):
         if b.name not in cone or "::tests::" in b.name:
             continue
         n += 1
-        good = b.name == neg.name or "tablebase" in norm(b.name) or norm(b.name).endswith("search::get_tablebase_pv") or tablebase_guarded(b, bb)
+        def allowed(x):
+            return x.name == neg.name or "tablebase" in norm(x.name) or norm(x.name).endswith("search::get_tablebase_pv")
+        good = allowed(b) or tablebase_guarded(b, bb)
+        if not good and b.kind in ("Fn", "AssocFn") and not b.raw.get("vis_pub"):
+            # a private helper all of whose callers are allowed producers is part of them
+            cs = [c for (c, _cbb, _ct) in fx.callers_of(lambda nm, _n=b.name: nm == _n or norm(nm) == norm(_n))]
+            good = bool(cs) and all(allowed(c) for c in cs)
         rep.obligation(good)
         if not good:
             ok = False
@@ -787,6 +827,8 @@ def _c03_mutant(tag, expect):
 
 
 MUTANTS = [
+    {"name": "the UCI reporter prints at most `depth` moves of the line (seed C08-9a)", "expect": "C08-REPORT/uci_report_search_progress/take",
+     "edits": __import__("shared_mutants").edits_from_patch("seeded/C08-9a/patch.diff")},
     {"name": "timed searches built without the requested depth limit (seed C08-6b)", "expect": "C08-DEPTH/limit-dropped",
      "edits": [("src/engine/uci/mod.rs", "                let search_restrictions = SearchRestrictions { depth: *depth };", "                let search_restrictions = if matches!(time_control, TimeControl::Infinite) {\n                    SearchRestrictions { depth: *depth }\n                } else {\n                    SearchRestrictions::default()\n                };")]},
     _c03_mutant("seed C08-5b", "C08-KEY/SCRATCH/right/loop-colour"),
